@@ -26,13 +26,14 @@ def Closed (f : Forest) : Prop := ∀ x ∈ f.free, x ∉ f.decls
 
 theorem step_frame (c : Cfg) (ν : Naming) (i : Info) (x : VarId) (h : x ∉ i.declared) :
     step c ν i x = ν x := by
-  unfold step
+  unfold step stepPairs
   split
   · simp only [assign, lookup_zip_none h]
-  · rfl
+  · simp [assign]
 
 theorem step_noflag (c : Cfg) (ν : Naming) (i : Info) (h : i.rename = false) : step c ν i = ν := by
-  simp [step, h]
+  funext v
+  simp [step, stepPairs, h, assign]
 
 theorem step_lookup (c : Cfg) (ν : Naming) (i : Info) (hr : i.rename = true) (w : VarId)
     (hw : w ∈ i.declared) :
@@ -41,7 +42,7 @@ theorem step_lookup (c : Cfg) (ν : Naming) (i : Info) (hr : i.rename = true) (w
   obtain ⟨n, h1, h2⟩ := lookup_zip_some (ns := newNames c (i.undeclared.map ν) i.declared.length)
     (newNames_length _ _ _) hw
   refine ⟨n, h1, h2, ?_⟩
-  simp only [step, hr, if_true, assign, h1]
+  simp only [step, stepPairs, hr, if_true, assign, h1]
 
 theorem step_fresh (c : Cfg) (ok : CfgOk c) (ν : Naming) (i : Info) (hr : i.rename = true) (w : VarId)
     (hw : w ∈ i.declared) :
